@@ -95,6 +95,18 @@ macro_rules! popcnt_harness {
         }
     };
 }
+/// N = 0: no word is counted, whatever the slice (the macro's cover `len < N` cannot be reached for N = 0)
+#[kani::proof]
+#[kani::unwind(10)]
+fn k4_popcnt_wide_0() {
+    let d: [u64; 9] = kani::any();
+    let len: usize = kani::any();
+    kani::assume(len <= 9);
+    let r = popcnt_wide::<0>(&d[..len]);
+    assert!(r == 0);
+    kani::cover!(len == 9);
+    kani::cover!(len == 0);
+}
 popcnt_harness!(k4_popcnt_wide_1, 1);
 popcnt_harness!(k4_popcnt_wide_2, 2);
 popcnt_harness!(k4_popcnt_wide_4, 4);
